@@ -9,6 +9,7 @@
 #include <fcntl.h>
 #include <unistd.h>
 #include <sys/mman.h>
+#include <sys/stat.h>
 #include <sys/uio.h>
 #include <sys/epoll.h>
 #include <sys/socket.h>
@@ -215,9 +216,12 @@ ssize_t sim_read(int fd, void *buf, size_t n) {
 	if (!k) return -1;
 	if (!buffer_ok(buf, n, "read")) { errno = EFAULT; return -1; }
 	if (k->kind == FD_FILE) {
-		size_t avail = g_kernel.file_data.size() > k->fpos ? g_kernel.file_data.size() - k->fpos : 0;
+		auto it = g_kernel.files.find(k->path);
+		static const std::string empty;
+		const std::string &data = it == g_kernel.files.end() ? empty : it->second;
+		size_t avail = data.size() > k->fpos ? data.size() - k->fpos : 0;
 		size_t m = n < avail ? n : avail;
-		memcpy(buf, g_kernel.file_data.data() + k->fpos, m); k->fpos += m;
+		memcpy(buf, data.data() + k->fpos, m); k->fpos += m;
 		return (ssize_t)m;
 	}
 	return g_hooks->on_read(*k, buf, n);
@@ -316,47 +320,82 @@ int sim_timerfd_settime(int fd, int flags, const struct itimerspec *nv, struct i
 }
 
 // ---------------------------------------------------------------- files
+// A small in-memory file system. `files` is what system calls see; `dur` is what would survive a loss of power:
+// data reaches it only through fsync, names through creation, rename and unlink (which are atomic and ordered).
 static bool fs_fault(const char *op, long &result) {
 	g_kernel.fs_calls++;
 	if (g_kernel.fs_fault_at == g_kernel.fs_calls) {
 		const std::string &kd = g_kernel.fs_fault_kind;
+		g_kernel.fs_fault_fired = true;
 		if (kd == "eio") { errno = EIO; result = -1; return true; }
 		if (kd == "enospc") { errno = ENOSPC; result = -1; return true; }
 		if (kd == "short" && strcmp(op, "write") == 0) { result = g_kernel.fs_fault_arg; return true; }
+		g_kernel.fs_fault_fired = false;
 	}
 	return false;
 }
 
-static void log_file(const char *op, long res) {
-	g_kernel.file_log.emplace_back(std::string(op) + ":" + std::to_string(res), g_kernel.file_data);
+static void log_file(const char *op, long res, const std::vector<std::string> *torn = nullptr) {
+	FileLogEntry e;
+	e.op = std::string(op) + ":" + std::to_string(res);
+	auto it = g_kernel.files.find(g_kernel.file_path); e.exists = it != g_kernel.files.end(); if (e.exists) e.image = it->second;
+	auto d = g_kernel.dur.find(g_kernel.file_path); e.dur_exists = d != g_kernel.dur.end(); if (e.dur_exists) e.dur_image = d->second;
+	if (torn) e.torn = *torn;
+	e.change = g_kernel.cur_change; e.call = g_kernel.fs_calls;
+	g_kernel.file_log.push_back(e);
 	if (g_hooks) g_hooks->on_file_op(op, res);
 }
 
 static long file_write(KFd &k, const void *buf, size_t n) {
 	long forced = 0;
+	auto it = g_kernel.files.find(k.path);
+	if (it == g_kernel.files.end()) { errno = EIO; return -1; }     // unlinked underneath: keep it simple
+	std::string &data = it->second;
 	if (fs_fault("write", forced)) {
-		if (forced < 0) { log_file("write", -1); return -1; }
-		if ((size_t)forced < n) n = (size_t)forced;
+		if (g_kernel.fs_fault_kind == "short") {
+			long a = g_kernel.fs_fault_arg;                       // >0: that many bytes; -1: all but one; -2: half
+			size_t m = a > 0 ? (size_t)a : a == -1 ? (n > 0 ? n - 1 : 0) : n / 2;
+			if (m < 1) m = 1;
+			if (m < n) n = m;
+		} else { log_file("write", -1); return -1; }
 	}
-	if (g_kernel.file_data.size() < k.fpos) g_kernel.file_data.resize(k.fpos, '\0');
-	g_kernel.file_data.replace(k.fpos, std::min(n, g_kernel.file_data.size() - k.fpos), std::string((const char *)buf, n));
+	// images a crash in the middle of this call could leave in the credential file (any prefix of the buffer: 1 byte, half, all but one)
+	std::vector<std::string> torn;
+	if (k.path == g_kernel.file_path && n > 1) {
+		for (size_t m : {(size_t)1, n / 2, n - 1}) { if (m == 0 || m >= n) continue; std::string t = data; if (t.size() < k.fpos) t.resize(k.fpos, '\0'); t.replace(k.fpos, std::min(m, t.size() - k.fpos), std::string((const char *)buf, m)); torn.push_back(t); }
+	}
+	if (data.size() < k.fpos) data.resize(k.fpos, '\0');
+	data.replace(k.fpos, std::min(n, data.size() - k.fpos), std::string((const char *)buf, n));
 	k.fpos += n;
-	log_file("write", (long)n);
+	log_file("write", (long)n, &torn);
 	return (long)n;
 }
 
 int sim_open(const char *path, int flags, ...) {
-	SYSCALL("open"); (void)flags;
-	if (!g_kernel.file_exists || g_kernel.file_path != path) { errno = ENOENT; return -1; }
-	KFd &k = g_kernel.alloc_fd(FD_FILE); k.fpos = 0;
+	SYSCALL("open");
+	auto it = g_kernel.files.find(path);
+	bool created = false;
+	if (it == g_kernel.files.end()) {
+		if (!(flags & O_CREAT)) { errno = ENOENT; return -1; }
+		long forced = 0;
+		if (fs_fault("open", forced) && forced < 0) { log_file("open", -1); return -1; }
+		g_kernel.files[path] = std::string(); g_kernel.dur[path] = std::string(); created = true;
+	} else if ((flags & O_CREAT) && (flags & O_EXCL)) { errno = EEXIST; return -1; }
+	if ((flags & O_TRUNC) && !created) g_kernel.files[path].clear();
+	KFd &k = g_kernel.alloc_fd(FD_FILE); k.fpos = (flags & O_APPEND) ? g_kernel.files[path].size() : 0; k.path = path;
+	if (created || (flags & O_TRUNC)) log_file("open", k.fd);
 	return k.fd;
 }
+int sim_open64(const char *path, int flags, ...) { return sim_open(path, flags, 0600); }
+int sim_creat(const char *path, mode_t mode) { (void)mode; return sim_open(path, O_CREAT | O_WRONLY | O_TRUNC, 0600); }
 
 off_t sim_lseek(int fd, off_t off, int whence) {
 	SYSCALL("lseek");
 	KFd *k = checked(fd, "lseek", M(FD_FILE));
 	if (!k) return -1;
-	long base = whence == SEEK_SET ? 0 : whence == SEEK_CUR ? (long)k->fpos : (long)g_kernel.file_data.size();
+	auto it = g_kernel.files.find(k->path);
+	long size = it == g_kernel.files.end() ? 0 : (long)it->second.size();
+	long base = whence == SEEK_SET ? 0 : whence == SEEK_CUR ? (long)k->fpos : size;
 	if (base + off < 0) { errno = EINVAL; return -1; }
 	k->fpos = (size_t)(base + off);
 	return (off_t)k->fpos;
@@ -368,12 +407,23 @@ int sim_ftruncate(int fd, off_t len) {
 	if (!k) return -1;
 	long forced = 0;
 	if (fs_fault("ftruncate", forced) && forced < 0) { log_file("ftruncate", -1); return -1; }
-	g_kernel.file_data.resize((size_t)len, '\0');
+	auto it = g_kernel.files.find(k->path);
+	if (it != g_kernel.files.end()) it->second.resize((size_t)len, '\0');
 	log_file("ftruncate", 0);
 	return 0;
 }
 
-int sim_fsync(int fd) { SYSCALL("fsync"); KFd *k = checked(fd, "fsync", M(FD_FILE)); if (!k) return -1; long f = 0; if (fs_fault("fsync", f) && f < 0) return -1; log_file("fsync", 0); return 0; }
+int sim_fsync(int fd) {
+	SYSCALL("fsync");
+	KFd *k = checked(fd, "fsync", M(FD_FILE));
+	if (!k) return -1;
+	long f = 0;
+	if (fs_fault("fsync", f) && f < 0) { log_file("fsync", -1); return -1; }
+	auto it = g_kernel.files.find(k->path);
+	if (it != g_kernel.files.end() && g_kernel.dur.count(k->path)) g_kernel.dur[k->path] = it->second;
+	log_file("fsync", 0);
+	return 0;
+}
 int sim_fdatasync(int fd) { return sim_fsync(fd); }
 
 void *sim_mmap(void *addr, size_t len, int prot, int flags, int fd, off_t off) {
@@ -382,11 +432,13 @@ void *sim_mmap(void *addr, size_t len, int prot, int flags, int fd, off_t off) {
 	if (!k) return MAP_FAILED;
 	if (len == 0) { errno = EINVAL; return MAP_FAILED; }
 	size_t padded = (len + 4095) & ~(size_t)4095;   // the rest of the last page reads as zero; a page multiple has no padding
-	uint64_t save_fail = 0; (void)save_fail;
 	void *p = g_arena.alloc(padded, true);
 	if (!p) { errno = ENOMEM; return MAP_FAILED; }
-	size_t avail = g_kernel.file_data.size() > (size_t)off ? g_kernel.file_data.size() - (size_t)off : 0;
-	memcpy(p, g_kernel.file_data.data() + off, avail < len ? avail : len);
+	auto it = g_kernel.files.find(k->path);
+	static const std::string empty;
+	const std::string &data = it == g_kernel.files.end() ? empty : it->second;
+	size_t avail = data.size() > (size_t)off ? data.size() - (size_t)off : 0;
+	memcpy(p, data.data() + off, avail < len ? avail : len);
 	return p;
 }
 
@@ -394,7 +446,7 @@ int sim_munmap(void *p, size_t len) { SYSCALL("munmap"); (void)len; if (g_arena.
 
 char *sim_realpath(const char *path, char *resolved) {
 	SYSCALL("realpath");
-	if (!g_kernel.file_exists || g_kernel.file_path != path) { errno = ENOENT; return nullptr; }
+	if (!g_kernel.files.count(path)) { errno = ENOENT; return nullptr; }
 	if (resolved) { strcpy(resolved, path); return resolved; }
 	char *r = (char *)g_arena.alloc(strlen(path) + 1, false);
 	if (!r) return nullptr;
@@ -402,8 +454,42 @@ char *sim_realpath(const char *path, char *resolved) {
 	return r;
 }
 
-int sim_unlink(const char *path) { SYSCALL("unlink"); (void)path; return 0; }
-int sim_rename(const char *a, const char *b) { SYSCALL("rename"); (void)a; (void)b; errno = ENOSYS; return -1; }
+int sim_unlink(const char *path) {
+	SYSCALL("unlink");
+	if (!g_kernel.files.count(path)) { errno = ENOENT; return -1; }   // also the daemon's unlink of its (abstract) socket name
+	long f = 0;
+	if (fs_fault("unlink", f) && f < 0) { log_file("unlink", -1); return -1; }
+	g_kernel.files.erase(path); g_kernel.dur.erase(path);
+	log_file("unlink", 0);
+	return 0;
+}
+
+int sim_rename(const char *a, const char *b) {
+	SYSCALL("rename");
+	auto it = g_kernel.files.find(a);
+	if (it == g_kernel.files.end()) { errno = ENOENT; return -1; }
+	long f = 0;
+	if (fs_fault("rename", f) && f < 0) { log_file("rename", -1); return -1; }
+	g_kernel.files[b] = it->second; g_kernel.files.erase(a);
+	auto d = g_kernel.dur.find(a);
+	if (d != g_kernel.dur.end()) { g_kernel.dur[b] = d->second; g_kernel.dur.erase(a); } else g_kernel.dur.erase(b);
+	for (auto &k : g_kernel.fds) if (k.open && k.kind == FD_FILE && k.path == a) k.path = b;
+	log_file("rename", 0);
+	return 0;
+}
+
+int sim_fstat(int fd, struct stat *st) {
+	SYSCALL("fstat");
+	KFd *k = checked(fd, "fstat", ~0);
+	if (!k) return -1;
+	memset(st, 0, sizeof *st);
+	if (k->kind == FD_FILE) { auto it = g_kernel.files.find(k->path); st->st_size = it == g_kernel.files.end() ? 0 : (off_t)it->second.size(); st->st_mode = S_IFREG | 0600; }
+	else st->st_mode = S_IFSOCK | 0600;
+	st->st_uid = 1000; st->st_gid = 1000; st->st_nlink = 1;
+	return 0;
+}
+int sim_fchmod(int fd, mode_t m) { SYSCALL("fchmod"); (void)m; return checked(fd, "fchmod", M(FD_FILE)) ? 0 : -1; }
+int sim_fchown(int fd, uid_t u, gid_t g) { SYSCALL("fchown"); (void)u; (void)g; return checked(fd, "fchown", M(FD_FILE)) ? 0 : -1; }
 
 // ---------------------------------------------------------------- misc
 typedef void (*sighandler_fn)(int);
